@@ -10,6 +10,7 @@ package main
 import (
 	"bufio"
 	"encoding/hex"
+	"encoding/json"
 	"errors"
 	"fmt"
 	"io"
@@ -294,8 +295,58 @@ func modePath(in *bufio.Scanner, w *bufio.Writer) {
 // prints: rc=<ok|err:...> sum=<checksum> goroutines=<before>/<after> ms=<elapsed> [hang]
 func modePool(in *bufio.Scanner, w *bufio.Writer) {
 	logger := &agglog.AggLogger{Error: log.New(io.Discard, "", 0), Info: log.New(io.Discard, "", 0), Debug: log.New(io.Discard, "", 0)}
+	last := map[string]string{} // cache directory -> checksum recorded by the last successful commit there
 	for in.Scan() {
 		f := strings.Fields(in.Text())
+		// harness-side edits between calls (no dud code involved): answered with one line each
+		if len(f) >= 2 && (f[0] == "fswrite" || f[0] == "fsrm" || f[0] == "breaksubman") {
+			switch f[0] {
+			case "fswrite": // fswrite <path> <text>: replace the entry by a regular file holding <text>
+				os.Remove(f[1])
+				os.WriteFile(f[1], []byte(strings.Join(f[2:], " ")), 0o644)
+			case "fsrm":
+				os.RemoveAll(f[1])
+			case "breaksubman": // breaksubman <cachedir>: truncate the manifest object of the first sub-directory of the last commit
+				sum := last[f[1]]
+				broke := false
+				if len(sum) > 2 {
+					raw, err := os.ReadFile(filepath.Join(f[1], sum[:2], sum[2:]))
+					if err == nil {
+						var man struct {
+							Contents map[string]struct {
+								Checksum string `json:"checksum"`
+								IsDir    bool   `json:"is-dir"`
+							} `json:"contents"`
+						}
+						if json.Unmarshal(raw, &man) == nil {
+							keys := []string{}
+							for k := range man.Contents {
+								keys = append(keys, k)
+							}
+							sort.Strings(keys)
+							for _, k := range keys {
+								c := man.Contents[k]
+								if c.IsDir && len(c.Checksum) > 2 {
+									obj := filepath.Join(f[1], c.Checksum[:2], c.Checksum[2:])
+									os.Chmod(obj, 0o644)
+									os.WriteFile(obj, []byte("{\"path\":"), 0o644)
+									broke = true
+									break
+								}
+							}
+						}
+					}
+				}
+				if !broke {
+					fmt.Fprintln(w, "edit=none goroutines=0/0")
+					w.Flush()
+					continue
+				}
+			}
+			fmt.Fprintln(w, "edit=ok goroutines=0/0")
+			w.Flush()
+			continue
+		}
 		if len(f) < 8 {
 			continue
 		}
@@ -312,7 +363,9 @@ func modePool(in *bufio.Scanner, w *bufio.Writer) {
 			strat = strategy.CopyStrategy
 		}
 		art := artifact.Artifact{Path: f[6], IsDir: true}
-		if f[7] != "-" {
+		if f[7] == "=" {
+			art.Checksum = last[f[5]] // what the last successful commit into this cache recorded
+		} else if f[7] != "-" {
 			art.Checksum = f[7]
 		}
 		runtime.GC()
@@ -325,6 +378,9 @@ func modePool(in *bufio.Scanner, w *bufio.Writer) {
 			switch f[0] {
 			case "commit":
 				err = ch.Commit(f[4], &art, strat, logger)
+				if err == nil {
+					last[f[5]] = art.Checksum
+				}
 			case "checkout":
 				err = ch.Checkout(f[4], art, strat, nil)
 			case "status":
